@@ -2,7 +2,7 @@
    Props/C19.v are about.  Request: (op args...).  Extracted with ExtrOcamlBasic only. *)
 From Coq Require Import String.
 From PV Require Import Base.Bytes Base.Outcome Base.Fmt.
-From PV Require Import Model.C19Base Model.C19Ctor.
+From PV Require Import Model.C19Base Model.C19Ctor Model.C19Battery.
 Open Scope string_scope.
 
 (* a mutant of a base image: substitute bytes, then truncate (len < 0: keep all) *)
@@ -25,6 +25,9 @@ Definition sx_run {A} (f : A -> sx) (rc : res A * cnt) : sx :=
 Definition ctor_answer (legacy : bool) (bs : list Z) : sx :=
   sx_run sx_elffile (run (ctor legacy bs)).
 
+Definition battery_answer (legacy : bool) (bs : list Z) : sx :=
+  sx_run sx_battery (run (open_and_enumerate legacy bs)).
+
 Definition dispatch (req : sx) : sx :=
   let l := gL req in
   let op := gS (nthx 0 l) in
@@ -32,5 +35,8 @@ Definition dispatch (req : sx) : sx :=
   if op =? "ctor" then ctor_answer false (gB a1)
   else if op =? "ctor_legacy" then ctor_answer true (gB a1)
   else if op =? "ctor_muts" then SL (map (fun m => ctor_answer false (mutate (gB a1) m)) (gL a2))
+  else if op =? "battery" then battery_answer false (gB a1)
+  else if op =? "battery_legacy" then battery_answer true (gB a1)
+  else if op =? "battery_muts" then SL (map (fun m => battery_answer false (mutate (gB a1) m)) (gL a2))
   else if op =? "mutants" then SL (map (fun m => SB (mutate (gB a1) m)) (gL a2))
   else sx_err "unknown-op".
